@@ -434,6 +434,21 @@ class C17(Check):
                 'explanation': 'exhaustive: true refers to sub-domain (a)'}
 
 
+def pp_planning_cases():
+    return st.builds(
+        lambda thr, chunk, size, exp: {
+            'kind': 'pp',
+            'cfg': {'multipart_threshold': thr, 'multipart_chunksize': chunk,
+                    'workers': 2},
+            'downloads': [{'size': size, 'preexist': None,
+                           'expected_size': exp, 'extra': {}}],
+            'faults': [], 'scripts': {}, 'cancels': [],
+            'end': {'how': 'shutdown', 'wait_results': True},
+            'sched': {'mode': 'walk', 'choices': []}},
+        st.integers(1, 40), st.integers(1, 16), st.integers(0, 70),
+        st.booleans())
+
+
 class C14(E2ECheck):
     id = 'C14'
     quick_examples = 30000
@@ -452,7 +467,10 @@ class C14(E2ECheck):
             'Hypothesis points over sizes to 5 TiB and chunks to 6 GiB biased'
             ' to k*c-1/+0/+1, powers of two +-1 and the S3 limits +-1; (c) '
             'end to end: Range / CopySourceRange / PartNumber / body length '
-            'of the requests the TransferManager issues (scaled adjuster); '
+            'of the requests the TransferManager, the legacy S3Transfer and '
+            'the process-pool downloader issue (scaled adjuster for the '
+            'manager; the legacy uploader has no adjuster by design and is '
+            'judged on tiling and numbering only); '
             'oracle = validity predicates (tiling, numbering, limits, '
             'chunk unchanged when valid); non-trivial = size not a multiple '
             'of the part size, or a limit active')
@@ -461,7 +479,9 @@ class C14(E2ECheck):
         from ..units import planning
         return st.one_of(
             planning.real_scale_points(), planning.real_scale_points(),
-            gen.e2e_cases(self.profile).map(lambda c: dict(c, kind='e2e')))
+            gen.e2e_cases(self.profile).map(lambda c: dict(c, kind='e2e')),
+            gen.e2e_cases(self.profile).map(lambda c: dict(c, kind='e2e')),
+            gen.legacy_cases(), pp_planning_cases())
 
     def classify(self, R):
         cfg = R.case['cfg']
@@ -480,6 +500,21 @@ class C14(E2ECheck):
 
     def execute(self, case):
         from ..units import planning
+        if case.get('kind') == 'legacy':
+            from ..legacy import run_legacy_case, oracle_legacy
+            R = run_legacy_case(case)
+            out = {'violations': [], 'cls': ['legacy'], 'nontrivial': False}
+            if R.hang:
+                out['inconclusive'] = True
+                return out
+            out['violations'] = [(sig.replace('legacy:', 'c14:legacy:', 1),
+                                  m) for sig, m in oracle_legacy(R, {'C14'})]
+            out['nontrivial'] = case['size'] >= case['threshold'] and \
+                bool(case['size'] % case['chunk'])
+            out['cls'] = [f'legacy:{case["op"]}']
+            return out
+        if case.get('kind') == 'pp':
+            return self.execute_pp(case)
         if case.get('kind') == 'real':
             out = {'violations': [], 'cls': ['real'], 'nontrivial': False}
             viol = planning.check_real_point(case)
@@ -492,8 +527,50 @@ class C14(E2ECheck):
             return out
         return super().execute(case)
 
+    def execute_pp(self, case):
+        import re
+        from ..pp import run_pp_case
+        R = run_pp_case(case)
+        if R.harness_error is not None:
+            raise R.harness_error
+        out = {'violations': [], 'cls': ['processpool'], 'nontrivial': False}
+        t = R.transfers[0]
+        size = len(t['expect'])
+        thr = case['cfg']['multipart_threshold']
+        chunk = case['cfg']['multipart_chunksize']
+        if not (t['outcome'] or {}).get('ok'):
+            return out
+        rngs = []
+        for c in R.trace.calls:
+            if c['op'] == 'get_object' and 'Range' in c['kwargs']:
+                m = re.match(r'^bytes=(\d+)-(\d*)$', c['kwargs']['Range'])
+                if m:
+                    rngs.append((int(m.group(1)),
+                                 int(m.group(2)) if m.group(2) else None))
+        if bool(rngs) != (size >= thr):
+            out['violations'].append(
+                ('c14:processpool:mode', f'size {size} threshold {thr}: '
+                                         f'ranged={bool(rngs)}'))
+        rngs.sort()
+        nxt = 0
+        bad = None
+        for k, (a, b) in enumerate(rngs):
+            if a != nxt:
+                bad = f'range {k} starts at {a}, expected {nxt}'
+                break
+            nxt = size if b is None else b + 1
+        if rngs and not bad and nxt != size:
+            bad = f'ranges end at {nxt}, size {size}'
+        if rngs and not bad and len(rngs) != -(-size // chunk):
+            bad = f'{len(rngs)} ranges for size {size} chunk {chunk}'
+        if bad:
+            out['violations'].append(('c14:processpool:ranges',
+                                      f'{bad} ({rngs})'))
+        out['nontrivial'] = bool(rngs) and bool(size % chunk)
+        return out
+
     def shrink_candidates(self, case):
-        if case.get('kind') == 'real':
+        if case.get('kind') in ('real', 'legacy', 'pp'):
             return
         for c in super().shrink_candidates(case):
             yield dict(c, kind='e2e')
@@ -561,8 +638,9 @@ class C15(Check):
             'calculation x {every allowed argument alone, every subset (>=2) '
             'of the checksum family for uploads, all arguments together}, '
             'plus every S3 input member name outside the allow-list '
-            '(rejection before any request); every cell is non-trivial; '
-            'distinct = the cell')
+            '(rejection before any request); the same for the legacy '
+            'S3Transfer.upload_file/download_file and the process-pool '
+            'download_file; every cell is non-trivial; distinct = the cell')
 
     def extra_shards(self, tier):
         return 16
@@ -577,15 +655,35 @@ class C15(Check):
         return case, routing.judge(R, cell)
 
     def execute(self, case):
-        cell = tuple(case['cell'][:4]) + (tuple(case['cell'][4]),)
-        _, viol = self.run_cell(cell)
-        return {'violations': viol, 'cls': [cell[0]], 'nontrivial': True}
+        from ..units import routing
+        c = case['cell']
+        if c[0] == 'legacy':
+            _, viol = routing.run_legacy_cell(tuple(c[:3]) + (tuple(c[3]),))
+        elif c[0] == 'pp':
+            _, viol = routing.run_pp_cell(tuple(c[:3]) + (tuple(c[3]),))
+        else:
+            cell = tuple(c[:4]) + (tuple(c[4]),)
+            _, viol = self.run_cell(cell)
+        return {'violations': viol, 'cls': [str(c[0])], 'nontrivial': True}
 
     def extra_shard(self, tier, seed, shard, nshards, stats):
         from ..units import routing
-        allc = routing.cells() + routing.disallowed_cells()
+        allc = routing.cells() + routing.disallowed_cells() + \
+            routing.legacy_cells() + routing.pp_cells()
         for idx, cell in enumerate(allc):
             if idx % nshards != shard:
+                continue
+            if cell[0] == 'legacy':
+                case, viol = routing.run_legacy_cell(cell)
+                stats.add(case, {'violations': viol, 'nontrivial': True,
+                                 'cls': [f'legacy:{cell[1]}:{cell[2]}'],
+                                 'fp': repr(cell)}, max_samples=1)
+                continue
+            if cell[0] == 'pp':
+                case, viol = routing.run_pp_cell(cell)
+                stats.add(case, {'violations': viol, 'nontrivial': True,
+                                 'cls': [f'processpool:{cell[1]}'],
+                                 'fp': repr(cell)}, max_samples=1)
                 continue
             case, viol = self.run_cell(cell)
             al = cell[4] and cell[4][0] not in \
